@@ -1058,6 +1058,44 @@ func TestC09_IssuedUnderParsedCA(t *testing.T) {
 		if _, err := leaf.Verify(gx.VerifyOptions{Roots: pool, CurrentTime: time.Unix(1700000000, 0), DNSName: "leaf.example"}); err != nil {
 			t.Fatalf("leaf issued under a parsed CA (shape %s) does not chain to it: %v", shape, err)
 		}
-		R.Case(true, hx.HashKey("parsedca", der), "issued_under_parsed_ca", "ca_subject:"+shape)
+		// the SAME template issued under a second CA: the authority key identifier must follow the issuer each time
+		// (CreateCertificate writes the identifier into the caller's template, which must not make it sticky)
+		ck2 := gen.OtherKey(t, hx.Root(), "cakey2", ck.D, lk.D)
+		ca2Priv := sm2x.Priv(ck2)
+		mkCA := func(cn string, ski []byte, priv *sm2.PrivateKey) *gx.Certificate {
+			tp := &gx.Certificate{SerialNumber: big.NewInt(7), Subject: pkix.Name{CommonName: cn}, NotBefore: time.Unix(1600000000, 0), NotAfter: time.Unix(1900000000, 0),
+				BasicConstraintsValid: true, IsCA: true, KeyUsage: gx.KeyUsageCertSign, SignatureAlgorithm: gx.SM2WithSM3, SubjectKeyId: ski}
+			d, err := gx.CreateCertificate(tp, tp, &priv.PublicKey, priv)
+			if err != nil {
+				t.Fatalf("CreateCertificate(CA with SubjectKeyId): %v", err)
+			}
+			c, err := gx.ParseCertificate(d)
+			if err != nil {
+				t.Fatalf("parse: %v", err)
+			}
+			return c
+		}
+		caA, caB := mkCA("key id CA A", []byte{0xA, 1, 2, 3}, caPriv), mkCA("key id CA B", []byte{0xB, 4, 5, 6, 7}, ca2Priv)
+		reuse := &gx.Certificate{SerialNumber: big.NewInt(3), Subject: pkix.Name{CommonName: "re-issued"}, NotBefore: time.Unix(1600000000, 0), NotAfter: time.Unix(1900000000, 0), KeyUsage: gx.KeyUsageDigitalSignature}
+		for round, iss := range []struct {
+			ca   *gx.Certificate
+			priv *sm2.PrivateKey
+		}{{caA, caPriv}, {caB, ca2Priv}, {caA, caPriv}} {
+			d, err := gx.CreateCertificate(reuse, iss.ca, sm2x.Pub(lk.Pub), iss.priv)
+			if err != nil {
+				t.Fatalf("CreateCertificate (template reused, round %d): %v", round, err)
+			}
+			c, err := gx.ParseCertificate(d)
+			if err != nil {
+				t.Fatalf("parse: %v", err)
+			}
+			if !bytes.Equal(c.AuthorityKeyId, iss.ca.SubjectKeyId) {
+				t.Fatalf("template re-used under another CA (round %d): authority key identifier %x, issuer's subject key identifier %x", round, c.AuthorityKeyId, iss.ca.SubjectKeyId)
+			}
+			if !bytes.Equal(c.RawIssuer, iss.ca.RawSubject) || c.CheckSignatureFrom(iss.ca) != nil {
+				t.Fatalf("template re-used under another CA (round %d): issuer or signature wrong", round)
+			}
+		}
+		R.Case(true, hx.HashKey("parsedca", der), "issued_under_parsed_ca", "ca_subject:"+shape, "template_reused")
 	})
 }
